@@ -61,33 +61,28 @@ Proof. intros s sep. split; [reflexivity|]. split; [reflexivity | apply split_em
 Print Assumptions C13_split_empty_cases.
 
 (* ---------- index / startswith / endswith / trim / replace ---------- *)
-Theorem C13_index_fixed_spec : forall s sub,
-  (forall i, index_fixed s sub = Z.of_nat i <-> FirstOcc sub s i) /\
-  (index_fixed s sub = (-1)%Z <-> NoOcc sub s).
-Proof. exact index_fixed_spec. Qed.
-Print Assumptions C13_index_fixed_spec.
+(* index (the model in force, mirroring indexFunc since 79c1bbb): the position
+   in characters of the first occurrence, -1 exactly when there is none *)
+Theorem C13_index_spec : forall s sub,
+  (forall i, index_chars s sub = Z.of_nat i <-> FirstOcc sub s i) /\
+  (index_chars s sub = (-1)%Z <-> NoOcc sub s).
+Proof. exact index_chars_spec. Qed.
+Print Assumptions C13_index_spec.
 
-(* the code's index finds the same (first) occurrence and reports -1 exactly when
-   there is none, but measures the position in bytes: it equals the documented
-   position iff everything before the occurrence is ASCII *)
-Theorem C13_index_bytes_guarded : forall s sub,
-  (forall i, FirstOcc sub s i -> index_bytes s sub = Z.of_nat (utf8_len (firstn i s))) /\
-  (index_bytes s sub = (-1)%Z <-> NoOcc sub s) /\
-  (forall i, FirstOcc sub s i ->
-     (index_bytes s sub = index_fixed s sub <-> Forall (fun c => (c < 128)%N) (firstn i s))).
+(* regression (fixed by 79c1bbb): the old byte-offset index found the same
+   occurrence but agreed with the documented position only behind ASCII prefixes *)
+Theorem C13_index_bytes_before_fix_refuted :
+  (exists s sub i, FirstOcc sub s i /\ index_bytes_before_fix s sub <> Z.of_nat i) /\
+  (forall s sub i, FirstOcc sub s i ->
+     (index_bytes_before_fix s sub = index_chars s sub <-> Forall (fun c => (c < 128)%N) (firstn i s))).
 Proof.
-  intros s sub. destruct (index_bytes_spec s sub) as [A B]. split; [exact A|]. split; [exact B|].
-  intros i. apply index_bytes_eq_fixed_iff.
+  split.
+  - exists [228%N; 98%N], [98%N], 1%nat. split.
+    + apply index_cp_some_iff. vm_compute. reflexivity.
+    + vm_compute. discriminate.
+  - intros s sub i. apply index_bytes_before_fix_eq_iff.
 Qed.
-Print Assumptions C13_index_bytes_guarded.
-
-Theorem C13_index_bytes_refuted : exists s sub i, FirstOcc sub s i /\ index_bytes s sub <> Z.of_nat i.
-Proof.
-  exists [228%N; 98%N], [98%N], 1%nat. split.
-  - apply index_cp_some_iff. vm_compute. reflexivity.
-  - vm_compute. discriminate.
-Qed.
-Print Assumptions C13_index_bytes_refuted.
+Print Assumptions C13_index_bytes_before_fix_refuted.
 
 Theorem C13_startswith_endswith : forall s p,
   (startswith s p = true <-> IsPrefix p s) /\ (endswith s p = true <-> IsSuffix p s).
@@ -155,73 +150,83 @@ Proof.
 Qed.
 Print Assumptions C13_str2bool_doc_literals_refuted.
 
-(* "Otherwise, the function returns 0 and sets err": true for syntax errors … *)
-Theorem C13_str2num_failure_zero_guarded : forall o s st,
-  o_parse_float o s = PFSyntax -> str2num o s st = (fc_zero, {| e_err := true; e_msg := s_ "str2num: cannot parse " ++ quote o s |}).
-Proof. intros o s st H. unfold str2num. rewrite H. reflexivity. Qed.
-Print Assumptions C13_str2num_failure_zero_guarded.
+(* "Otherwise, the function returns 0 and sets err" (model in force, since e40074a):
+   whenever str2num sets err the result is 0 and errmsg names the input *)
+Theorem C13_str2num_failure_zero : forall o s st,
+  (forall f, o_parse_float o s <> PFOk f) ->
+  str2num o s st = (fc_zero, {| e_err := true; e_msg := s_ "str2num: cannot parse " ++ quote o s |}).
+Proof.
+  intros o s st H. unfold str2num. destruct (o_parse_float o s) as [f| |f]; [exfalso; exact (H f eq_refl) | reflexivity | reflexivity].
+Qed.
+Print Assumptions C13_str2num_failure_zero.
 
-(* … not for range errors (strconv.ParseFloat returns ±Inf with ErrRange) *)
+Theorem C13_str2num_success : forall o s st f,
+  o_parse_float o s = PFOk f -> str2num o s st = (f, {| e_err := false; e_msg := [] |}).
+Proof. intros o s st f H. unfold str2num. rewrite H. reflexivity. Qed.
+Print Assumptions C13_str2num_success.
+
 Definition const_oracles (pf : parse_res) : oracles :=
   {| o_num_str := fun _ => []; o_fmt_float := fun _ _ => []; o_upper := fun c => c; o_lower := fun c => c;
      o_is_letter := fun c => ((65 <=? c) && (c <=? 90) || (97 <=? c) && (c <=? 122))%N;
      o_is_print := fun c => ((32 <=? c) && (c <? 127))%N;
      o_parse_float := fun _ => pf; o_math := fun _ _ => fc_zero; o_rand := fun _ => 0%Z; o_rand1 := fc_zero |}.
-Theorem C13_str2num_failure_zero_refuted :
-  exists o s st, e_err (snd (str2num o s st)) = true /\ fst (str2num o s st) <> fc_zero.
+
+(* regression (fixed by e40074a): ParseFloat's ±Inf for a range error was returned with err set *)
+Theorem C13_str2num_before_fix_refuted :
+  exists o s st, e_err (snd (str2num_before_fix o s st)) = true /\ fst (str2num_before_fix o s st) <> fc_zero.
 Proof.
   exists (const_oracles (PFRange fc_inf)), (s_ "1e999"), err_init. split; [reflexivity|].
   intros H. apply (f_equal (fun x => PrimFloat.eqb x fc_zero)) in H. vm_compute in H. discriminate.
 Qed.
-Print Assumptions C13_str2num_failure_zero_refuted.
+Print Assumptions C13_str2num_before_fix_refuted.
 
 (* ---------- rand ---------- *)
+(* model in force (randFunc since 30a294b), under the PRNG contract 0 <= r < n:
+   for 1 <= n <= 2^31-1 the result is an integer in [0, int32(n)) with
+   1 <= int32(n) < 2^31; for EVERY other n — NaN, ±Inf, 0, negative, 2^31 … —
+   the documented panic; the host crash (Int31n with n <= 0) is unreachable *)
 Theorem C13_rand_range : forall (o : oracles),
   (forall n, (0 < n)%Z -> (0 <= o_rand o n < n)%Z) ->
   forall upper,
-  match rand_model o upper with
-  | ORet v => exists z, v = VNum (float_of_Z z) /\ (0 <= z < go_int32 upper)%Z /\ (1 <= go_int32 upper < 2 ^ 31)%Z
-  | OPanic BadArguments => PrimFloat.ltb upper fc_one = true \/ PrimFloat.ltb fc_int31max upper = true
-  | OHostCrash => PrimFloat.ltb upper fc_one = false /\ PrimFloat.ltb fc_int31max upper = false /\ (go_int32 upper <= 0)%Z
-  | _ => False
-  end.
+  if PrimFloat.leb fc_one upper && PrimFloat.leb upper fc_int31max
+  then exists z, rand_model o upper = ORet (VNum (float_of_Z z)) /\ (0 <= z < go_int32 upper)%Z /\ (1 <= go_int32 upper < 2 ^ 31)%Z
+  else rand_model o upper = OPanic BadArguments.
 Proof. exact rand_range. Qed.
 Print Assumptions C13_rand_range.
 
-Theorem C13_rand_nan_refuted : forall o, rand_model o fc_nan = OHostCrash.
-Proof. intros o. vm_compute. reflexivity. Qed.
-Print Assumptions C13_rand_nan_refuted.
+Theorem C13_rand_no_host_crash : forall o upper, rand_model o upper <> OHostCrash.
+Proof. exact rand_no_host_crash. Qed.
+Print Assumptions C13_rand_no_host_crash.
 
-Theorem C13_rand_fixed : forall (o : oracles),
-  (forall n, (0 < n)%Z -> (0 <= o_rand o n < n)%Z) ->
-  rand_fixed o fc_nan = OPanic BadArguments /\
-  forall upper,
-  match rand_fixed o upper with
-  | ORet v => exists z, v = VNum (float_of_Z z) /\ (0 <= z < go_int32 upper)%Z
-  | OPanic BadArguments => PrimFloat.leb fc_one upper && PrimFloat.leb upper fc_int31max = false
-  | OHostCrash => PrimFloat.leb fc_one upper && PrimFloat.leb upper fc_int31max = true /\ (go_int32 upper <= 0)%Z
-  | _ => False
-  end.
-Proof. intros o H. split; [vm_compute; reflexivity | apply rand_fixed_range, H]. Qed.
-Print Assumptions C13_rand_fixed.
+Theorem C13_rand_nan_panics : forall o, rand_model o fc_nan = OPanic BadArguments.
+Proof. intros o. vm_compute. reflexivity. Qed.
+Print Assumptions C13_rand_nan_panics.
+
+(* regression (fixed by 30a294b): `upper < 1 || upper > 2147483647` let NaN through to Int31n *)
+Theorem C13_rand_nan_before_fix_refuted : forall o, rand_model_before_fix o fc_nan = OHostCrash.
+Proof. intros o. vm_compute. reflexivity. Qed.
+Print Assumptions C13_rand_nan_before_fix_refuted.
 
 (* ---------- repr: keys ---------- *)
-Theorem C13_repr_keys_fixed : forall o k,
-  (key_repr_fixed o k = k <-> IdentSpec o k) /\ (key_repr_fixed o k = quote o k <-> ~ IdentSpec o k).
-Proof. exact key_repr_fixed_spec. Qed.
-Print Assumptions C13_repr_keys_fixed.
-
-Theorem C13_repr_keys_guarded : forall o k c t, k = c :: t -> is_letter_ o c = true ->
+(* model in force (lexer.IsIdent since 09cb4c8): a key is printed bare iff it is
+   an identifier (letter/underscore, then letters, digits, underscores), quoted otherwise *)
+Theorem C13_repr_keys : forall o k,
+  (is_ident o k = true <-> IdentSpec o k) /\
   (key_repr o k = k <-> IdentSpec o k) /\ (key_repr o k = quote o k <-> ~ IdentSpec o k).
-Proof. exact key_repr_guarded. Qed.
-Print Assumptions C13_repr_keys_guarded.
+Proof. intros o k. split; [apply is_ident_spec | apply key_repr_spec]. Qed.
+Print Assumptions C13_repr_keys.
 
-Theorem C13_repr_keys_refuted : exists o k, ~ IdentSpec o k /\ key_repr o k = k.
+(* regression (fixed by 09cb4c8): the first character was never examined *)
+Theorem C13_repr_keys_before_fix_refuted :
+  (exists o k, ~ IdentSpec o k /\ key_repr_before_fix o k = k) /\
+  (forall o c t, is_ident_before_fix o (c :: t) = ident_rest o t).
 Proof.
-  exists (const_oracles PFSyntax), (s_ "1a"). split; [|vm_compute; reflexivity].
-  intros H. apply is_ident_fixed_spec in H. vm_compute in H. discriminate.
+  split.
+  - exists (const_oracles PFSyntax), (s_ "1a"). split; [|vm_compute; reflexivity].
+    intros H. apply is_ident_spec in H. vm_compute in H. discriminate.
+  - intros o c t. apply (is_ident_before_fix_unfold o (c :: t)).
 Qed.
-Print Assumptions C13_repr_keys_refuted.
+Print Assumptions C13_repr_keys_before_fix_refuted.
 
 (* ---------- printf: a mismatched verb does not panic ---------- *)
 Theorem C13_printf_mismatch_refuted :
@@ -243,6 +248,22 @@ Theorem C13_test_bookkeeping : forall ff outs,
   (classify stop t = RcOk <-> stop = None /\ fail_count t = 0%nat).
 Proof. exact test_bookkeeping. Qed.
 Print Assumptions C13_test_bookkeeping.
+
+(* … and the same for real programs: any sequence of `test` calls with any
+   arguments, run through the dispatcher and evalFunccall's bookkeeping; the
+   outcomes are those of testFunc on the any-wrapped arguments *)
+Theorem C13_test_bookkeeping_programs : forall o ff argss st,
+  let outs := map (fun a => test_func o (map wrap_any a)) argss in
+  let '(_, _, t, stop) := run_calls o ff (test_calls argss) st ti_init in
+  let ex := executed ff outs in
+  t_total t = List.length ex /\
+  fail_count t = List.length (filter is_fail ex) /\
+  (success_count t + fail_count t = t_total t)%nat /\
+  t_errors t = fail_msgs ex /\
+  (stop = None <-> forallb (fun r => negb (ends_run ff r)) outs = true) /\
+  (classify stop t = RcOk <-> stop = None /\ fail_count t = 0%nat).
+Proof. exact test_bookkeeping_programs. Qed.
+Print Assumptions C13_test_bookkeeping_programs.
 
 Theorem C13_test_summary : forall ns t,
   report ns t =
@@ -285,7 +306,9 @@ Proof. apply index_cp_some_iff. vm_compute. reflexivity. Qed.
 Example C13_ex_rand : (forall n, (0 < n)%Z -> (0 <= o_rand (const_oracles PFSyntax) n < n)%Z)
   /\ rand_model (const_oracles PFSyntax) (fc_lit 3) = ORet (VNum fc_zero)
   /\ rand_model (const_oracles PFSyntax) fc_zero = OPanic BadArguments
-  /\ rand_model (const_oracles PFSyntax) (fc_lit 2147483648) = OPanic BadArguments.
+  /\ rand_model (const_oracles PFSyntax) (fc_lit 2147483648) = OPanic BadArguments
+  /\ rand_model (const_oracles PFSyntax) fc_inf = OPanic BadArguments
+  /\ PrimFloat.leb fc_one (fc_lit 3) && PrimFloat.leb (fc_lit 3) fc_int31max = true.
 Proof. split; [intros n H; simpl; split; [apply Z.le_refl | exact H] | vm_compute; repeat split; reflexivity]. Qed.
 
 Example C13_ex_err_history :
@@ -296,8 +319,8 @@ Proof. vm_compute. split; reflexivity. Qed.
 
 Example C13_ex_keys :
   let o := const_oracles PFSyntax in
-  key_repr o (s_ "ok_1") = s_ "ok_1" /\ key_repr o (s_ "a b") = s_ """a b""" /\ key_repr o (s_ "1a") = s_ "1a"
-  /\ key_repr_fixed o (s_ "1a") = s_ """1a""".
+  key_repr o (s_ "ok_1") = s_ "ok_1" /\ key_repr o (s_ "a b") = s_ """a b""" /\ key_repr o (s_ "1a") = s_ """1a"""
+  /\ key_repr_before_fix o (s_ "1a") = s_ "1a".
 Proof. vm_compute. repeat split; reflexivity. Qed.
 
 Example C13_ex_tests :
